@@ -154,6 +154,26 @@ func (a *Analyzer) CheckRule(clause ast.Clause) error {
 						boundVars[p.Interval.End.Variable] = true
 					}
 				}
+			case ast.Ineq:
+				// Evaluation proceeds left-to-right and an inequality can only be
+				// decided once both sides have a value.
+				ineqVars := make(map[ast.Variable]bool)
+				ast.AddVars(p.Left, ineqVars)
+				ast.AddVars(p.Right, ineqVars)
+				for v := range ineqVars {
+					if boundVars[v] {
+						continue
+					}
+					if x := uf.Get(v); x != nil {
+						if _, isconst := x.(ast.Constant); isconst {
+							continue
+						}
+						if u, isvar := x.(ast.Variable); isvar && boundVars[u] {
+							continue
+						}
+					}
+					return fmt.Errorf("variable %v in %v will not have a value yet; move the subgoal to the right", v, p)
+				}
 			case ast.Eq:
 				if _, isconst := p.Left.(ast.Constant); isconst {
 					if v, isvar := p.Right.(ast.Variable); isvar {
